@@ -12,7 +12,7 @@ from __future__ import annotations
 
 import ast
 
-from sa.cfg import node_calls, node_exprs
+from sa.cfg import EXC_LABELS, node_calls, node_exprs
 from sa.common import cfg_of
 from sa.flow import must_pass, reach
 from sa.load import AnalysisError, Program, callee_name, dotted, norm
@@ -138,6 +138,38 @@ def run(prog: Program, rep, tier="quick"):
            "a non-leaf object can be returned without its references being enqueued", nx.node.lineno)
     at = prog.func(OS_PY, "MissingObjectFinder.add_todo")
     rep.ob("R05.3", OS_PY, at.qual, "add_todo drops only what is already done", "not in self.sha_done" in norm(at.node, 10000), "", at.node.lineno)
+    # ---- R05.4 the have side: what the sender assumes the peer already holds
+    rep.rule("R05.4", "objects assumed present on the peer: tree entries of common commits except gitlinks (a gitlink names a commit of "
+                      "ANOTHER repository: holding the tree does not imply holding that commit); haves are objects the client holds")
+    cf = prog.func(OS_PY, "_collect_filetree_revs")
+    g = cfg_of(prog, cf)
+    setp = [a.arg for a in cf.node.args.args][-1]
+    adds = [i for i, n in g.nodes.items() for c in node_calls(n) if isinstance(c.func, ast.Attribute) and c.func.attr in ("add", "update")
+            and isinstance(c.func.value, ast.Name) and c.func.value.id == setp]
+    gl = [i for i, n in g.nodes.items() if n.kind == "test" and isinstance(n.ast, ast.Call) and callee_name(n.ast) == "S_ISGITLINK"]
+    r = reach(g, [g.entry], include_srcs=True, edge_ok=lambda a, b, l: not (a in gl and l == "false"))
+    rep.ob("R05.4", OS_PY, cf.qual, f"`{setp}.add(sha)` only for entries that are not gitlinks", bool(adds) and bool(gl) and not any(a in r for a in adds),
+           "the commit id a gitlink points to is recorded as already present on the peer: when the same commit is also part of "
+           "the wanted history (submodule turned subtree, merge of the submodule's history) it is never sent",
+           g.nodes[adds[0]].line if adds else cf.node.lineno)
+    rec = [c for c in ast.walk(cf.node) if isinstance(c, ast.Call) and callee_name(c) == "_collect_filetree_revs"]
+    dirs = [i for i, n in g.nodes.items() if n.kind == "test" and isinstance(n.ast, ast.Call) and dotted(n.ast.func) == "stat.S_ISDIR"]
+    rep.ob("R05.4", OS_PY, cf.qual, "subtrees are descended into (S_ISDIR) so that their entries are assumed present as well", bool(rec) and bool(dirs), "", cf.node.lineno)
+    gw = prog.func(OS_PY, "ObjectStoreGraphWalker.next")
+    g = cfg_of(prog, gw)
+    gp = [i for i, n in g.nodes.items() for c in node_calls(n) if dotted(c.func) == "self.get_parents"]
+    rets = [i for i, n in g.nodes.items() if n.kind == "stmt" and isinstance(n.ast, ast.Return) and n.ast.value is not None
+            and not (isinstance(n.ast.value, ast.Constant) and n.ast.value.value is None)]
+    if not gp or not rets:
+        raise AnalysisError("ObjectStoreGraphWalker.next: get_parents call or the return of a have not found")
+    fail = [b for i in gp for b, l in g.succ[i] if l in EXC_LABELS]
+    r = reach(g, fail, include_srcs=True)
+    rep.ob("R05.4", OS_PY, gw.qual, "a commit is announced as a have only after its parents were read from the local store (KeyError = not held)",
+           not any(x in r for x in rets) and not must_pass(g, rets, gp),
+           "a commit whose lookup failed (it is not in the local store, e.g. below a shallow boundary) is still returned and sent "
+           "as `have`: the server omits it and everything below it, leaving the client with a parent it does not hold",
+           g.nodes[rets[0]].line)
+    rep.floor("R05.4", 3)
     rep.floor("R05.3", 7)
     rep.floor("R05.1", 3)
     rep.floor("R05.2", 5)
